@@ -12,7 +12,7 @@ RULE = ('histories = every valid sequence up to depth D over the alphabet {V(mod
         'view j, T(j): tabulate through view j} for 4 files (pair, EAM, Finnis-Sinclair, ADP), each executed on fresh real objects in lock-step '
         'with the reference (text-level deletion of entries, parsed and tabulated unfiltered); plus every file x filter x compatible target '
         'through potable --include-species/--exclude-species; states = distinct reference states (tuple of live views + which were read)')
-RULE += '; nested views (a view of a view), caller-owned containers {one list re-used, tuple, one-shot iterator}; the files relabelled with a prefix chain (H, He, Hes), charged labels (Ce3+, Ce4+) and case variants (Co, CO); entries with a modifier in a later range; a species filter combined with one command-line edit (-e / -r / -a); the constructor called positionally; histories with M(j) (the caller empties / truncates the lists view j returned) and P (one [Pair] entry of the wrapped parser replaced through raw_config_parser between reads)'
+RULE += '; nested views (a view of a view), caller-owned containers {one list re-used, tuple, one-shot iterator}; the files relabelled with a prefix chain (H, He, Hes), charged labels (Ce3+, Ce4+) and case variants (Co, CO); entries with a modifier in a later range; a species filter combined with one command-line edit (-e / -r / -a); the constructor called positionally; histories with M(j) (the caller empties / truncates the lists view j returned) and P (one [Pair] entry of the wrapped parser replaced through raw_config_parser between reads); a Finnis-Sinclair file with a species that occurs in density entries only'
 ASSUMPTIONS = [
     'the hand-edited file is obtained by deleting [Pair], [EAM-Embed] and [EAM-Density] entries only (the statement lists pair, embedding and density entries)',
     'the edited file is parsed and tabulated by the same implementation without filter: a relational oracle, no expected numbers',
@@ -46,6 +46,11 @@ def files():
     adp.sections.append(['EAM-ADP-Dipole', [['A-A', '>=0 as.polynomial 0.5 -0.2 0.01'], ['A-B', '>=0 as.polynomial 0.6 -0.2 0.01']]])
     adp.sections.append(['EAM-ADP-Quadrupole', [['B-B', '>=0 as.morse 0.75 1.3 0.2'], ['C-A', '>=0 as.morse 0.85 1.3 0.21']]])
     out = {'pair': pair, 'eam': eam, 'fs': fs, 'adp': adp}
+    # a Finnis-Sinclair file in which species C occurs in [EAM-Density] entries only (no embedding function, no pair potential)
+    donly = fs.copy()
+    donly.section('EAM-Embed')[1][:] = [kv for kv in donly.section('EAM-Embed')[1] if kv[0] != 'C']
+    donly.section('Pair')[1][:] = [kv for kv in donly.section('Pair')[1] if 'C' not in kv[0].split('-')]
+    out['fs_donly'] = donly
     # the same files with labels one of which is a prefix of the next (H, He, Hes; unknown Hx) and with charged labels (Ce3+, Ce4+; unknown Ce)
     for tag, mp in LABEL_MAPS.items():
         for base in ('pair', 'eam', 'fs'):
@@ -152,7 +157,9 @@ def cases(tier):
     for fname in extra:
         for h in short:
             out.append(dict(kind='history', file=fname, ops=h, container='fresh'))
-    for fname in ['pair', 'eam', 'fs', 'adp'] + extra:
+    for h in short:
+        out.append(dict(kind='history', file='fs_donly', ops=h, container='fresh'))
+    for fname in ['pair', 'eam', 'fs', 'adp', 'fs_donly'] + extra:
         for fi in range(len(FILTERS)):
             for tgt in TARGETS[base_of(fname)]:
                 out.append(dict(kind='cli', file=fname, filter=fi, target=tgt))
